@@ -494,7 +494,7 @@ func TestVFC03Wire(t *testing.T) {
 		wc := &vfWorldConf{
 			ProtectionEnabled: true, FilteringEnabled: true,
 			Allowed: l.Allowed, Disallowed: l.Disallowed, BlockedHosts: l.BlockedHosts,
-			WithLogStats: true, QLogMemSize: 1000,
+			WithLogStats: true, QLogMemSize: 1000, QLogSentinel: true,
 			HTTPRegister: func(method, url string, h http.HandlerFunc) { handlers[method+" "+url] = h },
 		}
 		w, err := vfNewWorld(wc)
